@@ -36,6 +36,8 @@ ValidateClause(e) ==
 CliClause(e) ==
   IF e.lib \in NotJudged THEN "ok"
   ELSE IF e.exit = 3 \/ e.exit = -1 THEN "NeverInternalError"
+  \* streams conformant by construction (e.known): exit 0 whatever the library validator says of them
+  ELSE IF e.known = "conformant" /\ e.exit # 0 THEN "ConformantExitsZero"
   ELSE IF e.lib = "accept" /\ e.exit # 0 THEN "ConformantExitsZero"
   ELSE IF e.lib = "reject" /\ e.exit # 2 THEN "NonConformantExitsTwo"
   ELSE IF e.lib = "reject" /\ ~(e.marker_offset /\ e.marker_explain /\ e.marker_hint) THEN "RejectionIsLocatedAndExplained"
